@@ -83,6 +83,7 @@ type Contract struct {
 	File     string
 	Props    []string // properties this function is under contract for
 	Uses     []string // axiom groups this function's proofs may use
+	TaggedOnly []string // properties for which only explicitly tagged clauses of this function count
 	NoNil    bool     // rte.nil obligations are not generated (stated assumption)
 	Lemma    bool     // ghost client (lemma) function
 }
@@ -214,6 +215,8 @@ func (sp *Spec) loadFile(path string, pkg string) error {
 			cur.Props = append(cur.Props, strings.Fields(strings.ReplaceAll(rest, ",", " "))...)
 		case "nonil":
 			cur.NoNil = true
+		case "tagged-only":
+			cur.TaggedOnly = append(cur.TaggedOnly, strings.Fields(strings.ReplaceAll(rest, ",", " "))...)
 		case "mode":
 			cur.Mode = rest
 		case "pure":
